@@ -281,3 +281,15 @@ def boundary_cases(rng, ver, tier):
             if r2.ok:
                 c.fail("block with a changed MAC character accepted")
         yield c, kbpk, h, key, w
+
+
+def pick_id(rng, se):
+    """a block id for an assignment on a live object: four times in ten one the header already carries (the assignment then
+    overwrites - still one block, in its old place), otherwise a new one (standard-defined or random, never the pad block)"""
+    try:
+        have = list(se.kb.header.blocks)
+    except Exception:  # noqa: BLE001
+        have = []
+    if have and rng.random() < 0.4:
+        return rng.choice(have)
+    return rand_id(rng, set())
